@@ -444,13 +444,13 @@ type env struct {
 func newEnv() *env {
 	chainutil.Init()
 	blockchain.VerifSetPeerTimeoutSeconds(3600) // timeouts are fired by the behaviour, never by the wall clock
-	root := ""
-	if fi, err := os.Stat("/dev/shm"); err == nil && fi.IsDir() {
-		root = "/dev/shm"
-	}
-	base, err := os.MkdirTemp(root, "vfastsync-")
-	if err != nil {
-		panic(err)
+	base := os.Getenv("VERIF_FS_BASE") // set by the supervisor, which removes it whatever happens to this process
+	if base != "" {
+		if err := os.MkdirAll(base, 0700); err != nil {
+			panic(err)
+		}
+	} else {
+		base = scratchRoot()
 	}
 	w := 30 * time.Second
 	if v, err := strconv.Atoi(os.Getenv("VERIF_FS_WAIT_MS")); err == nil && v > 0 {
